@@ -122,6 +122,52 @@ def code_breaks_stability(kind, is_return, typ, code, edd):
     return edd and typ in ("int", "float", "bool", "str", "complex")
 
 
+def _entries(ir):
+    return [(n, p, False) for n, p in ir["params"]] + ([("return_type", ir["returns"], True)] if ir["returns"] else [])
+
+
+def untyped_breaks(kind, ir):
+    """where an entry without a type does not survive one round trip today (measured, DESIGN §6)"""
+    for n, p, is_ret in _entries(ir):
+        if "typ" in p:
+            continue
+        has_def = "default" in p
+        if kind == "rest":
+            if has_def and not is_ret:
+                return True
+        elif kind == "numpydoc":
+            return True
+        elif kind == "google":
+            if not is_ret:
+                return True
+        elif kind in ("function", "method"):
+            if has_def:
+                return True
+        else:  # class, argparse
+            return True
+    return False
+
+
+def prose_less_breaks(kind, ir, inline_types=True):
+    """where an entry without prose does not survive one round trip today (measured, DESIGN §6)"""
+    ents = _entries(ir)
+    for i, (n, p, is_ret) in enumerate(ents):
+        if "doc" in p:
+            continue
+        if kind in ("rest", "numpydoc", "google"):
+            if "default" in p or "typ" not in p or (is_ret and kind == "numpydoc"):
+                return True
+        elif kind in ("class", "function", "method"):
+            if is_ret and kind != "class":
+                return True
+            if kind != "class" and not inline_types and not is_ret:
+                return True  # the type lives in a `:type` line that is only written next to a `:param` line
+            # documented parameters are listed first: a prose-less parameter followed by a described one moves
+            if not is_ret and any("doc" in q and not r for _, q, r in ents[i + 1 :]):
+                return True
+    return False
+
+
 def zero_allowed(typ):
     return [ZERO[typ]] if typ in ZERO else []
 
@@ -234,9 +280,11 @@ class AstKindProp(Prop):
     # finding classes shared by the AST kinds
     def classify(self, c, fl):
         ir = c["ir"]
-        base = classify_doc_ir(ir, "rest", True)
-        if base in ("C01-untyped-entry", "C01-entry-without-prose"):
-            return base.replace("C01", "AST")
+        kinds_here = c.get("chain") or [self.kind_of(c)]
+        if any(untyped_breaks(k, ir) for k in kinds_here):
+            return "AST-untyped-entry"
+        if any(prose_less_breaks(k, ir, bool(c.get("opts", {}).get("inline_types", c.get("inline", True)))) for k in kinds_here):
+            return "AST-entry-without-prose"
         entries = [p for _, p in ir["params"]] + ([ir["returns"]] if ir["returns"] else [])
         for idx, p in enumerate(entries):
             d = p.get("default")
@@ -253,6 +301,9 @@ class AstKindProp(Prop):
 
     def classify_kind(self, c, fl):
         return None
+
+    def kind_of(self, c):
+        return c.get("kind") or self.kind
 
     def code_breaks(self, c, is_return, typ, code):
         return code_breaks_roundtrip(self.kind, is_return, typ, code, c["opts"].get("emit_default_doc", True))
